@@ -41,6 +41,9 @@ def protocol(ctx, L):
     L.check(P.body_is(s, """
         for name, rhs in other._fields.items():
             self.set_field(name, rhs)
+    """, """
+        for name in other._fields:
+            self.set_field(name, other._fields[name])
     """, params=['self', 'other']), 'C11c.copy-protocol',
             'struct._copy_implementation', s.site(),
             'every field the source holds must be copied unconditionally (a filter on the value would drop explicitly stored '
